@@ -204,4 +204,41 @@ def trace (c : Cfg) (st : State α) : List (Ev α) → List (Ev α × Out α)
   | [] => []
   | e :: es => (e, outputs c st e) :: trace c (step c st e) es
 
+/-! ## `strm::fifo` — the ready/valid wrapper (scl/stream/streamFifo.h:121-152), single clock
+
+Modelled and tied to the code by the correspondence harness (`c15 … stream`); the theorems of
+`Properties/C15.lean` are about the inner `Fifo` it instantiates. -/
+
+/-- latency handed to the inner `Fifo` (streamFifo.h:146: 0 is replaced by 1, the wrapper adds the bypass) -/
+def streamInnerLat : LatReq → LatReq
+  | .specific 0 => .specific 1
+  | r => r
+
+/-- `fifoLatency == 0` (Option::operator==: only a SPECIFIC value compares equal) -/
+def streamFallThrough : LatReq → Bool
+  | .specific 0 => true
+  | _ => false
+
+structure SOut (α : Type) where
+  inReady : Bool
+  outValid : Bool
+  outData : α
+
+/-- interface values of the wrapper for the given inputs -/
+def streamOutputs (fall : Bool) (st : State α) (inValid : Bool) (d : α) : SOut α :=
+  let bypass := fall && st.core.empty              -- IF(!valid(ret)) downstream(ret) = downstream(in)
+  { inReady := !st.core.full                        -- ready(in) = !instance.full()
+    outValid := if bypass then inValid else !st.core.empty
+    outData := if bypass then d else st.core.peek }
+
+/-- the event the inner FIFO sees -/
+def streamEvent (fall : Bool) (st : State α) (rst inValid : Bool) (d : α) (outReady : Bool) : Ev α :=
+  let bypass := fall && st.core.empty
+  let v := if bypass && outReady then false else inValid   -- IF(ready(ret)) valid(in) = '0'
+  { pushClk := true, popClk := true, pushRst := rst, popRst := rst
+    pushReq := v && !st.core.full                            -- IF(transfer(in)) instance.push(..)
+    data := d, afLevel := 0
+    popReq := !st.core.empty && outReady                     -- pop(): IF(transfer(ret)) fifo.pop()
+    aeLevel := 0 }
+
 end Gatery.C15
